@@ -819,12 +819,16 @@ class IrGenerator:
                     # The choices of a case statement must be distinct.
                     # When two branches test for the same value the first one wins,
                     # the if-else implementation preserves that.
-                    choices = [expr.result() for expr in exprs]
+                    # group by printed value first, chains can have many branches
+                    seen: dict[tuple, list] = {}
 
-                    for nr, choice in enumerate(choices):
-                        for other in choices[:nr]:
+                    for choice in [expr.result() for expr in exprs]:
+                        key = (type(choice), str(choice))
+
+                        for other in seen.setdefault(key, []):
                             if other is choice or bool(other == choice):
                                 return False
+                        seen[key].append(choice)
                     return True
 
                 if (
